@@ -98,7 +98,9 @@ P = {
         "and continue-on-error flags; forward_to or not; allow_encoded_slashes off or not; decision/proxy served on a recorder or "
         "(25%) over a real loopback connection).  Per request of the group: method GET/POST/HEAD/OPTIONS(+pre-flight headers)/PUT/"
         "DELETE, path (rule path, sub path, %2F; for non-matching lookups also /, /.well-known/health, /favicon.ico, /metrics ...), "
-        "what the upstream does (200 | 204/302/404/500 | takes the request and drops the connection), and an OUTCOME VECTOR: every "
+        "an Accept header (none | supported | wildcards | unsupported | q=0 for all supported | malformed; verbose error responses "
+        "are on in half of the configurations), what the upstream does (200 | 204/302/404/500 | takes the request and drops the "
+        "connection), and an OUTCOME VECTOR: every "
         "step succeeds | returns an error value (random tree of depth <= 4 over heimdall sentinels, other sentinels, RedirectError, "
         "EvalError, foreign leaves, standard-library errors such as context.Canceled / DeadlineExceeded / io.EOF / net timeouts, "
         "%w / Join / ErrorChain) | panics (error or string value); every `if` is absent | a stub program (true/false/error/panic) | "
